@@ -45,7 +45,7 @@ pub fn meta() -> CheckMeta {
     CheckMeta {
         id: "C19",
         level: "exploration",
-        rule: "cases: (a) anchors — monomials x^d, d = 0..6, on a fixed grid of 8 points x 5 steps, both formulas, real and complex; (b) random real/complex polynomials of degree 0..6 (first) / 0..5 (second), |c_k| in 10^[-2,2] with zeros, x in [-3,3], h in 10^[-3,-0.3]: returned value against the exact derivative (degree <= 4 / <= 3) or derivative + leading error term (above); (c) linearity on pairs of random functions; (d) remainder bound on sums of sines / exponentials (complex: e^{(k+iw)x}). Non-trivial: polynomial cases of degree 4,5,6 (first) / 3,4,5 (second), and every case involving a transcendental function; distinct = distinct hash of (formula, field, function parameters, x, h)".into(),
+        rule: "cases: (a) anchors — monomials x^d, d = 0..6, on a fixed grid of 8 points x 5 steps, both formulas, real and complex; (b) random real/complex polynomials of degree 0..6 (first) / 0..5 (second), |c_k| in 10^[-2,2] with zeros, x in [-3,3], h in 10^[-3,-0.3]: returned value against the exact derivative (degree <= 4 / <= 3) or derivative + leading error term (above); (c) linearity on pairs of random functions; (d) remainder bound on sums of sines / exponentials (complex: e^{(k+iw)x}). Non-trivial: polynomial cases of degree 4,5,6 (first) / 3,4,5 (second), and every case involving a transcendental function; distinct = distinct hash of (formula, field, function parameters, x, h); (e) stencil-zeros — polynomials in factored form around a dyadic x with dyadic h whose samples at 0-4 stencil points are exact zeros; (f) single precision — f32 and Complex<f32> instantiations, x including +0.0 and -0.0, h >= 1/32, allowance in units of eps32".into(),
         assumptions: vec![
             "well-scaled range: |x| <= 3, 1e-3 <= h <= 0.5, coefficient magnitudes 1e-2..1e2; rounding allowance K*eps*ptilde(|x|+2h)/h^m with ptilde = sum |c_k| r^k (the sampled polynomial's own evaluation error is part of it)".into(),
             "sin/exp of the platform libm are accurate to a few ulp".into(),
@@ -231,6 +231,211 @@ fn poly_case(rep: &mut Report, which: Formula, p: &Poly, x: f64, h: f64, stage: 
         if rep.wants_sample() {
             rep.sample(case(Some(got)).set("error_over_eps_ptilde_over_h^m", ratio));
         }
+    }
+}
+
+// ------------------------------------------------------------------ polynomials with exact zeros on the stencil
+
+/// Polynomials in factored form around the evaluation point, q(u) = c * prod_{s in S} (u - s h) * prod_j (u - r_j),
+/// u = t - x, with dyadic x and h: the samples at the stencil points x + s h, s in S, are then EXACT
+/// zeros (not merely small). The exactness statement does not care where the polynomial vanishes, but
+/// an implementation that normalises by sampled values, or takes shortcuts on zero samples, does.
+/// The oracle is the expanded polynomial in u, evaluated at u = 0.
+fn stencil_zero_case(rep: &mut Report, which: Formula, rng: &mut Rng, complex: bool) {
+    let field = if complex { "complex" } else { "real" };
+    let key = format!("{}/{}", which.name(), field);
+    let x = (rng.below(97) as f64 - 48.0) / 16.0;
+    let h = 0.5f64.powi(1 + rng.below(9) as i32);
+    let deg = 1 + rng.below(which.exact_deg());
+    // which stencil offsets are zeros: the first derivative samples -2,-1,1,2, the second -1,0,1
+    let offsets: &[f64] = if which == Formula::First { &[-2.0, -1.0, 1.0, 2.0, 0.0] } else { &[-1.0, 0.0, 1.0, 2.0, -2.0] };
+    let mut roots: Vec<f64> = vec![];
+    let mut pool: Vec<f64> = offsets.to_vec();
+    // symmetric pairs first in half of the cases (both inner samples zero, or both outer)
+    if deg >= 2 && rng.bool() {
+        let a = if rng.bool() { 1.0 } else { 2.0 };
+        roots.push(a * h);
+        roots.push(-a * h);
+        pool.retain(|v| v.abs() != a);
+    }
+    while roots.len() < deg {
+        if !pool.is_empty() && rng.chance(0.7) {
+            let k = rng.below(pool.len());
+            roots.push(pool.remove(k) * h);
+        } else {
+            // a root off the stencil (dyadic too)
+            roots.push((rng.below(65) as f64 - 32.0) / 8.0 + 0.0625);
+        }
+    }
+    let c0 = if complex { C::from_polar(rng.log10(-2.0, 2.0), rng.r(0.0, 6.28)) } else { C::new(rng.sign() * rng.log10(-2.0, 2.0), 0.0) };
+    // expanded coefficients in u
+    let mut c = vec![c0];
+    for r in &roots {
+        let mut n = vec![C::new(0.0, 0.0); c.len() + 1];
+        for (k, ck) in c.iter().enumerate() {
+            n[k + 1] += *ck;
+            n[k] -= *ck * *r;
+        }
+        c = n;
+    }
+    let pu = Poly { c, complex };
+    let rts = roots.clone();
+    let f = move |t: f64| {
+        let u = t - x;
+        let mut v = c0;
+        for r in &rts {
+            v *= u - *r;
+        }
+        if complex {
+            v
+        } else {
+            C::new(v.re, 0.0)
+        }
+    };
+    let zeros_on_stencil = roots.iter().filter(|r| (**r / h).abs() <= 2.0 && (**r / h).fract() == 0.0).count();
+    let got = run_formula(which, complex, &f, x, h);
+    rep.eval();
+    rep.count(&format!("{}/stencil_zero_cases", key), 1);
+    rep.count(&format!("{}/stencil_zero_cases_with_{}_zero_samples", key, zeros_on_stencil.min(4)), 1);
+    let m = which.order();
+    let exact = pu.deriv(m, 0.0);
+    let scale = EPS * pu.tilde(2.0 * h) / h.powi(m as i32);
+    let kk = if m == 1 { K_P1 } else { K_P2 };
+    let case = |got: Option<C>| {
+        let mut j = J::obj()
+            .set("function", which.name())
+            .set("field", field)
+            .set("form", "f(t) = c * prod_k ((t - x) - root_k)")
+            .set("c", cj(c0))
+            .set("roots_in_u", J::fs(&roots))
+            .set("roots_over_h", J::fs(&roots.iter().map(|r| r / h).collect::<Vec<_>>()))
+            .set("degree", deg)
+            .set("x", x)
+            .set("h", h)
+            .set("exact_derivative", cj(exact))
+            .set("rounding_allowance", kk * scale);
+        if let Some(g) = got {
+            j.put("returned", cj(g));
+        }
+        j
+    };
+    let got = match got {
+        Guarded::Ok(v) => v,
+        Guarded::Panic(msg, loc) => {
+            rep.violation(&format!("{}/panic", which.name()), case(None), format!("{} panicked: '{}' at {}", which.name(), msg, loc));
+            return;
+        }
+        Guarded::Budget => return,
+    };
+    let err = (got - exact).norm();
+    rep.max(&format!("{}/stencil_zero_ratio", key), err / scale);
+    if !(err <= kk * scale) {
+        rep.violation(
+            &format!("{}/not-exact-on-degree-{}", which.name(), deg),
+            case(Some(got)),
+            format!("{} of a degree-{} {} polynomial with {} exactly zero sample(s) on the stencil, x={:e}, h={:e}: returned {:?}, exact {:?}; difference {:e} (allowed {:e})", which.name(), deg, field, zeros_on_stencil, x, h, got, exact, err, kk * scale),
+        );
+    }
+    if zeros_on_stencil >= 2 {
+        let mut hsh = CaseHash::new("c19-stencil").u(m as u64).u(complex as u64).f(x).f(h).f(c0.re).f(c0.im);
+        for r in &roots {
+            hsh = hsh.f(*r);
+        }
+        rep.nontrivial(hsh.0);
+    }
+}
+
+// ------------------------------------------------------------------ single precision
+
+type C32 = Complex<f32>;
+const EPS32: f64 = f32::EPSILON as f64;
+
+/// The formulas are generic over the real field: the same exactness holds in f32 with eps = 2^-23
+/// (polynomial evaluated in f32 by the closure, as a user would). The point x = 0 and dyadic points
+/// are part of the workload; steps stay >= 1/32 so that eps32/h^2 leaves a meaningful bound.
+fn f32_case(rep: &mut Report, which: Formula, rng: &mut Rng, complex: bool) {
+    let field = if complex { "complex_f32" } else { "real_f32" };
+    let key = format!("{}/{}", which.name(), field);
+    let deg = rng.below(which.exact_deg() + 1);
+    let p = Poly::gen(rng, deg, complex);
+    let x = match rng.below(6) {
+        0 => 0.0f32,
+        1 => -0.0f32,
+        2 => *rng.pick(&[-3.0f32, -1.0, 1.0, 3.0, 0.5, -0.25]),
+        _ => rng.r(-3.0, 3.0) as f32,
+    };
+    let h = if rng.bool() { 0.5f32.powi(1 + rng.below(5) as i32) } else { rng.log10(-1.5, -0.30103) as f32 };
+    let c32: Vec<C32> = p.c.iter().map(|z| C32::new(z.re as f32, z.im as f32)).collect();
+    // the polynomial actually sampled has the f32-rounded coefficients: the oracle uses those
+    let p32 = Poly { c: c32.iter().map(|z| C::new(z.re as f64, z.im as f64)).collect(), complex };
+    let m = which.order();
+    let got: Guarded<C> = probe::guard(|| {
+        let fc = |t: f32| {
+            let mut acc = C32::new(0.0, 0.0);
+            for ck in c32.iter().rev() {
+                acc = acc * t + *ck;
+            }
+            acc
+        };
+        let fr = |t: f32| {
+            let mut acc = 0.0f32;
+            for ck in c32.iter().rev() {
+                acc = acc * t + ck.re;
+            }
+            acc
+        };
+        match (which, complex) {
+            (Formula::First, true) => {
+                let v: C32 = derivative(fc, x, h);
+                C::new(v.re as f64, v.im as f64)
+            }
+            (Formula::Second, true) => {
+                let v: C32 = second_derivative(fc, x, h);
+                C::new(v.re as f64, v.im as f64)
+            }
+            (Formula::First, false) => C::new(derivative(fr, x, h) as f64, 0.0),
+            (Formula::Second, false) => C::new(second_derivative(fr, x, h) as f64, 0.0),
+        }
+    });
+    rep.eval();
+    rep.count(&format!("{}/f32_cases", key), 1);
+    if x == 0.0 {
+        rep.count(&format!("{}/f32_cases_at_zero", key), 1);
+    }
+    let (xd, hd) = (x as f64, h as f64);
+    let exact = p32.deriv(m, xd);
+    let scale = EPS32 * p32.tilde(xd.abs() + 2.0 * hd) / hd.powi(m as i32);
+    let kk = if m == 1 { K_P1 } else { K_P2 };
+    let case = |got: Option<C>| {
+        let mut j = J::obj().set("function", which.name()).set("field", field).set("polynomial(f32 coefficients)", p32.to_json()).set("degree", deg).set("x", xd).set("x_is_negative_zero", x == 0.0 && x.is_sign_negative()).set("h", hd).set("exact_derivative", cj(exact)).set("rounding_allowance", kk * scale);
+        if let Some(g) = got {
+            j.put("returned", cj(g));
+        }
+        j
+    };
+    let got = match got {
+        Guarded::Ok(v) => v,
+        Guarded::Panic(msg, loc) => {
+            rep.violation(&format!("{}/panic", which.name()), case(None), format!("{} panicked: '{}' at {}", which.name(), msg, loc));
+            return;
+        }
+        Guarded::Budget => return,
+    };
+    let err = (got - exact).norm();
+    rep.max(&format!("{}/f32_ratio", key), err / scale);
+    if !(err <= kk * scale) {
+        rep.violation(
+            &format!("{}/not-exact-on-degree-{}", which.name(), deg),
+            case(Some(got)),
+            format!("{} in single precision of a degree-{} polynomial at x={:e}, h={:e}: returned {:?}, exact {:?}; difference {:e} (allowed {:e} = {} eps32 ptilde/h^{})", which.name(), deg, xd, hd, got, exact, err, kk * scale, kk, m),
+        );
+    }
+    if deg >= 2 {
+        let mut hsh = CaseHash::new("c19-f32").u(m as u64).u(complex as u64).f(xd).f(hd);
+        for z in &p32.c {
+            hsh = hsh.f(z.re).f(z.im);
+        }
+        rep.nontrivial(hsh.0);
     }
 }
 
@@ -509,6 +714,18 @@ pub fn stages(ctx: &Ctx) -> Vec<Stage> {
             poly_case(rep, which, &p, x, h, name);
         }));
     }
+    let n_sz = tier.pick(40_000u64, 1_000_000u64);
+    st.push(Stage::new("stencil-zeros", n_sz, move |i, rep| {
+        let mut rng = Rng::for_case(seed, "c19-stencil-zeros", i);
+        let which = if i % 2 == 0 { Formula::First } else { Formula::Second };
+        stencil_zero_case(rep, which, &mut rng, (i / 2) % 2 == 1);
+    }));
+    let n_f32 = tier.pick(40_000u64, 1_000_000u64);
+    st.push(Stage::new("single-precision", n_f32, move |i, rep| {
+        let mut rng = Rng::for_case(seed, "c19-f32", i);
+        let which = if i % 2 == 0 { Formula::First } else { Formula::Second };
+        f32_case(rep, which, &mut rng, (i / 2) % 2 == 1);
+    }));
     let n_lin = tier.pick(80_000u64, 2_000_000u64);
     st.push(Stage::new("linearity", n_lin, move |i, rep| {
         let mut rng = Rng::for_case(seed, "c19-linearity", i);
@@ -543,6 +760,8 @@ pub fn thresholds(ctx: &Ctx, rep: &Report) -> Vec<Threshold> {
                 required: 500.0 * big,
                 observed: rep.counter(&format!("{}/leading_term_resolved_100x", key)) as f64,
             });
+            t.push(Threshold { what: format!("{} cases with >= 2 exactly zero samples on the stencil", key), required: 2_000.0 * big, observed: (2..=4).map(|k| rep.counter(&format!("{}/stencil_zero_cases_with_{}_zero_samples", key, k))).sum::<i64>() as f64 });
+            t.push(Threshold { what: format!("{} single-precision cases at x = +-0", key), required: 1_000.0 * big, observed: rep.counter(&format!("{}_f32/f32_cases_at_zero", key)) as f64 });
             t.push(Threshold { what: format!("{} linearity cases", key), required: 1_500.0 * big, observed: rep.counter(&format!("{}/linearity_cases", key)) as f64 });
             t.push(Threshold { what: format!("{} remainder-bound cases", key), required: 2_000.0 * big, observed: rep.counter(&format!("{}/smooth_cases", key)) as f64 });
             t.push(Threshold { what: format!("{} remainder-bound cases dominated by truncation (bound > 1000 x rounding allowance)", key), required: 500.0 * big, observed: rep.counter(&format!("{}/truncation_dominated", key)) as f64 });
